@@ -9,6 +9,7 @@ from ..num import wire, unwire, canon, INF
 from ..pools import RecPool
 
 STREAMS = ["stacks", "templates"]
+REGENERATE_SRC = True
 RULE = ("random stacks of depth 0..8 of PoolDecorator, Logger, Standardiser and Buffer over a recording pool; sequences "
         "of reads (supply / utilisation / allocation / demand), demand writes and changes of the underlying pool; a "
         "capturing handler snapshots every record and the base pool's demand at emission time; templates built from "
